@@ -11,6 +11,8 @@ tree map on mixed pytrees whose leaves have every shape of a finite shape alphab
 broadcasting the scaling against it keeps the leaf's shape; every other leaf comes back bit-identical and the
 call does not raise).  The Robert-Asselin filter is a 3x1 stencil per entry: its three impulse responses, the
 newest level (bit-identical) and linear-in-time triples are enumerated over a lattice of strengths.
+
+Extensions after the seeded-breakage rounds (DESIGN.md 8.5): An integer-typed step counter that is linear in time goes through the Robert-Asselin filter.
 """
 import functools
 import numpy as np
